@@ -15,6 +15,7 @@
 
 #include <atomic>
 #include <cinttypes>
+#include <ctime>
 #include <climits>
 #include <cstdint>
 #include <cstdio>
@@ -235,6 +236,11 @@ class Scheduler {
   HarnessCallbacks* cb = nullptr;
   std::uint64_t max_points = 50000;
   bool use_private_blocks = true;
+  // cost of deviating from the default thread at a non-preemptive switch point
+  // (start, finish, blocking wait, voluntary yield): 0 = pure preemption
+  // bounding, 1 = delay bounding (every deviation from the deterministic
+  // round-robin continuation counts)
+  unsigned free_alt_cost = 0;
   bool closure_mode = false;
   std::unordered_set<std::uint64_t>* visited = nullptr;  // closure mode
   // tag bits to mask off a stored pointer value for the publication rule
@@ -367,10 +373,7 @@ class Scheduler {
     others_enabled_asc(w.id, opts);
     if (closure_mode && opts.size() > 1 && check_cut()) return park_forever(w);
     const int c = choose(w.id, PK_ACCESS, hkind, opts);
-    if (c != 0) {
-      ++preemptions;
-      switch_to(w, opts[static_cast<std::size_t>(c)]);
-    }
+    if (c != 0) switch_to(w, opts[static_cast<std::size_t>(c)]);
     // we are about to perform the access
     if (w.pending_invoke) {
       w.pending_invoke = false;
@@ -562,6 +565,7 @@ class Scheduler {
         fatal(EXIT_DIVERGED, buf);
       }
     }
+    if (c != 0) preemptions = static_cast<std::uint16_t>(preemptions + (pk == PK_ACCESS ? 1U : free_alt_cost));
     r.chosen = static_cast<std::uint8_t>(c);
     r.chosen_thread = static_cast<std::uint8_t>(opts[static_cast<std::size_t>(c)]);
     trace.push_back(r);
@@ -614,6 +618,8 @@ inline Scheduler g_sched;
 
 // ---------------------------------------------------------------------------
 // Explorer: iterative DFS over choice prefixes.
+inline std::string choices_to_string(const std::vector<PointRec>& tr);
+
 struct ExploreStats {
   std::uint64_t executions = 0;
   std::uint64_t points = 0;          // transitions
@@ -647,7 +653,17 @@ ExploreStats explore(unsigned bound, unsigned shard, unsigned nshards,
       st.complete = false;
       break;
     }
+    struct timespec ts0, ts1;
+    clock_gettime(CLOCK_MONOTONIC, &ts0);
     const bool keep_going = run_one(item.prefix, item.expected);
+    clock_gettime(CLOCK_MONOTONIC, &ts1);
+    {
+      const double ms = (ts1.tv_sec - ts0.tv_sec) * 1e3 + (ts1.tv_nsec - ts0.tv_nsec) / 1e6;
+      static const bool dbg = std::getenv("VSCHED_SLOW") != nullptr;
+      if (dbg && ms > 20)
+        std::fprintf(stderr, "SLOW %.1fms points=%llu choices=%s\n", ms,
+                     static_cast<unsigned long long>(g_sched.npoints), choices_to_string(g_sched.trace).c_str());
+    }
     const std::vector<PointRec>& tr = g_sched.trace;
     const bool counted = !(is_root && shard != 0);
     if (counted) {
@@ -666,7 +682,7 @@ ExploreStats explore(unsigned bound, unsigned shard, unsigned nshards,
     for (std::size_t i = item.prefix.size(); i < tr.size(); ++i) {
       const PointRec& p = tr[i];
       const unsigned cost =
-          p.preempt_before + (p.pkind == PK_ACCESS ? 1U : 0U);
+          p.preempt_before + (p.pkind == PK_ACCESS ? 1U : g_sched.free_alt_cost);
       if (cost > bound) continue;
       for (unsigned alt = 1; alt < p.nopts; ++alt) {
         if (is_root) {
